@@ -24,6 +24,9 @@ Variables (peq contains : pfx -> pfx -> bool) (is_bit_set : pfx -> N -> bool)
 Variable bits : pfx -> list bool.
 Variable ok : pfx -> Prop.
 Hypothesis LAWS : prefix_laws pfx peq contains is_bit_set plen lcp pzero mcmp bits ok.
+(* NB: no proof below uses [LAWS] (nor [mcmp]): uniqueness needs only [wf_under]/[wf_root], and the
+   preservation proofs are purely structural.  After the section is closed every theorem is
+   therefore generalised only over the section variables its statement mentions. *)
 
 Notation tree := (Trie.tree pfx V).
 Notation pmap := (Trie.pmap pfx V).
@@ -448,4 +451,341 @@ Proof.
   destruct (ins_canon_gen t false q x a Hc) as [A _]. rewrite <- vins_tree, H in A. exact A.
 Qed.
 
+(* ---------------------------------------------------------------------------------------- *)
+(** * [remove_self], [absorb], [rem] *)
+
+(** removing a node's own value: needs only that the children are canonical (in particular it
+    applies to a valued node with any number of children).  If the node was not unlinked as a
+    leaf, something (the node itself, or its only child) still stands at its position. *)
+Lemma remove_self_canon hp i p v l r a t' fl a' :
+  remove_self hp i p v l r a = (t', fl, a') ->
+  canon_below l -> canon_below r ->
+  canon_gen hp t' /\ (fl = false -> is_node t' = true).
+Proof.
+  unfold Trie.remove_self. intros H Hl Hr.
+  destruct (is_node l) eqn:Nl, (is_node r) eqn:Nr.
+  - inversion H; subst. split; [|reflexivity]. split; [intros _ _; split; assumption | split; assumption].
+  - destruct hp; inversion H; subst.
+    + split; [apply canon_gen_true; exact Hl | intros _; exact Nl].
+    + split; [|reflexivity]. split; [discriminate | split; assumption].
+  - destruct hp; inversion H; subst.
+    + split; [apply canon_gen_true; exact Hr | intros _; exact Nr].
+    + split; [|reflexivity]. split; [discriminate | split; assumption].
+  - destruct hp; inversion H; subst.
+    + split; [reflexivity | discriminate].
+    + split; [|reflexivity]. split; [discriminate | split; assumption].
+Qed.
+
+(** the parent's frame after a child was unlinked as a leaf: a non-root value-less parent had
+    two children, so it collapses into the non-Leaf sibling; a valued parent or the root just
+    loses the child *)
+Lemma absorb_canon hp i p v l r s a t' a' :
+  absorb hp i p v l r s a = (t', a') ->
+  canon_gen hp (Node i p v l r) ->
+  canon_gen hp t' /\ is_node t' = true.
+Proof.
+  unfold Trie.absorb. intros H Hc. destruct (hp && is_none v) eqn:B.
+  - apply andb_true_iff in B. destruct B as [-> Bv]. destruct v; [discriminate|].
+    destruct Hc as [Hv [Hl Hr]]. destruct (Hv eq_refl eq_refl) as [Nl Nr].
+    inversion H; subst. destruct s.
+    + split; [apply canon_gen_true; exact Hl | exact Nl].
+    + split; [apply canon_gen_true; exact Hr | exact Nr].
+  - inversion H; subst. split; [|apply is_node_with_child].
+    destruct Hc as [Hv [Hl Hr]].
+    assert (Hv' : hp = true -> v = None -> False).
+    { intros -> ->. discriminate. }
+    destruct s; cbn [Trie.with_child]; (split; [intros A1 A2; destruct (Hv' A1 A2)|]); split;
+      solve [assumption | exact I].
+Qed.
+
+Lemma rem_node hp i p v l r q a :
+  rem hp (Node i p v l r) q a =
+  if peq p q then let '(t', fl, a') := remove_self hp i p v l r a in (t', fl, v, a') else
+  let s := to_right p q in
+  let c := child_of l r s in
+  match c with
+  | Leaf => (Node i p v l r, false, None, a)
+  | Node _ cp _ _ _ =>
+    if contains cp q then
+      let '(c', fl, o, a') := rem true c q a in
+      if fl then let '(t', a'') := absorb hp i p v l r s a' in (t', false, o, a'')
+      else (with_child i p v l r s c', false, o, a')
+    else (Node i p v l r, false, None, a)
+  end.
+Proof. reflexivity. Qed.
+
+(** MAIN LEMMA 2b: [rem] preserves canonicity in the role given by [hp]; and unless the subtree
+    was unlinked as a leaf ([fl = true], which the parent's [absorb] repairs), a non-Leaf subtree
+    is replaced by a non-Leaf subtree *)
+Lemma rem_canon_gen t : forall hp q a t' fl o a',
+  rem hp t q a = (t', fl, o, a') ->
+  canon_gen hp t ->
+  canon_gen hp t' /\ (is_node t = true -> fl = false -> is_node t' = true).
+Proof.
+  induction t as [|i p v l IHl r IHr]; intros hp q a t' fl o a' H Hc.
+  - cbn in H. inversion H; subst. split; [exact Hc | discriminate].
+  - rewrite rem_node in H. destruct (peq p q) eqn:E.
+    + destruct (remove_self hp i p v l r a) as [[t1 fl1] a1] eqn:RS. inversion H; subst.
+      destruct Hc as [_ [Hl Hr]].
+      destruct (remove_self_canon _ _ _ _ _ _ _ _ _ _ RS Hl Hr) as [A B]. split; [exact A | intros _; exact B].
+    + cbv zeta in H. set (s := to_right p q) in *.
+      assert (IHc : forall q a t' fl o a',
+                rem true (child_of l r s) q a = (t', fl, o, a') -> canon_below (child_of l r s) ->
+                canon_below t' /\ (is_node (child_of l r s) = true -> fl = false -> is_node t' = true)).
+      { intros q0 a0 t0 fl0 o0 a0' H0 H1. apply canon_gen_true in H1.
+        destruct s; cbn [TrieWf.child_of] in *;
+          [destruct (IHr _ _ _ _ _ _ _ H0 H1) as [A B] | destruct (IHl _ _ _ _ _ _ _ H0 H1) as [A B]];
+          (split; [apply canon_gen_true; exact A | exact B]). }
+      assert (Hcc : canon_below (child_of l r s)).
+      { destruct Hc as [_ [Hl Hr]]. destruct s; assumption. }
+      destruct (child_of l r s) as [|ci cp cv cl cr] eqn:Ec.
+      * inversion H; subst. split; [exact Hc | reflexivity].
+      * destruct (contains cp q) eqn:C1.
+        -- destruct (rem true (Node ci cp cv cl cr) q a) as [[[c' fl1] o1] a1] eqn:R.
+           destruct (IHc _ _ _ _ _ _ R Hcc) as [A B].
+           destruct fl1.
+           ++ destruct (absorb hp i p v l r s a1) as [t1 a2] eqn:AB. inversion H; subst.
+              destruct (absorb_canon _ _ _ _ _ _ _ _ _ _ AB Hc) as [A1 B1]. split; [exact A1 | intros _ _; exact B1].
+           ++ inversion H; subst. split; [|intros _ _; apply is_node_with_child].
+              apply canon_with_child; [exact Hc | exact A|]. rewrite Ec. intros _. apply B; reflexivity.
+        -- inversion H; subst. split; [exact Hc | reflexivity].
+Qed.
+
+(** MAIN THEOREMS 2b *)
+Theorem rem_canon_below t q a t' fl o a' :
+  rem true t q a = (t', fl, o, a') -> canon_below t ->
+  canon_below t' /\ (is_node t = true -> fl = false -> is_node t' = true).
+Proof.
+  intros H Hc. apply canon_gen_true in Hc. destruct (rem_canon_gen t true q a t' fl o a' H Hc) as [A B].
+  split; [apply canon_gen_true; exact A | exact B].
+Qed.
+
+Theorem rem_canonical t q a t' fl o a' :
+  rem false t q a = (t', fl, o, a') -> canonical t -> canonical t'.
+Proof.
+  intros H Hc. apply canon_gen_false in Hc. destruct (rem_canon_gen t false q a t' fl o a' H Hc) as [A _].
+  apply canon_gen_false. exact A.
+Qed.
+
+(* ---------------------------------------------------------------------------------------- *)
+(** * [ret] (outcomes [RDone _] only: after a panic of the closure the tree may be left with a
+    value-less one-child node) *)
+
+(** for ANY outcome, a panic of the closure included: the nodes on the path to the panicking
+    node are kept as they are, so no value-less one-child node can arise *)
+Lemma ret_canon_gen_any f t : forall hp s t' st s',
+  ret f hp t s = (t', st, s') ->
+  canon_gen hp t ->
+  canon_gen hp t' /\ (is_node t = true -> st <> RDone true -> is_node t' = true).
+Proof.
+  induction t as [|i p v l IHl r IHr]; intros hp s t' st s' H Hc.
+  - cbn in H. inversion H; subst. split; [exact Hc | discriminate].
+  - cbn [Trie.ret] in H.
+    pose proof Hc as [Hv [Hl Hr]].
+    destruct (ret f true l s) as [[l' sl] s1] eqn:RL.
+    destruct (IHl true s l' sl s1 RL (proj2 (canon_gen_true l) Hl)) as [Al Bl].
+    apply canon_gen_true in Al.
+    destruct sl as [fl1|].
+    2:{ (* panic in the left subtree *)
+      inversion H; subst. split; [|intros _ _; reflexivity].
+      split; [|split; assumption]. intros A1 A2. destruct (Hv A1 A2) as [Nl Nr].
+      split; [apply Bl; [exact Nl | discriminate] | exact Nr]. }
+    destruct (fl1 && (hp && is_none v)) eqn:B1.
+    + (* collapsed by the removal of the left child *)
+      apply andb_true_iff in B1. destruct B1 as [-> B1]. apply andb_true_iff in B1. destruct B1 as [-> B1].
+      destruct v; [discriminate|]. destruct (Hv eq_refl eq_refl) as [Nl Nr].
+      destruct (IHr true _ _ _ _ H (proj2 (canon_gen_true r) Hr)) as [Ar Br].
+      split; [exact Ar | intros _; apply Br; exact Nr].
+    + destruct (ret f true r s1) as [[r' sr] s2] eqn:RR.
+      destruct (IHr true s1 r' sr s2 RR (proj2 (canon_gen_true r) Hr)) as [Ar Br].
+      apply canon_gen_true in Ar.
+      destruct sr as [fr|].
+      2:{ (* panic in the right subtree *)
+        inversion H; subst. split; [|intros _ _; reflexivity].
+        split; [|split; assumption]. intros -> A2. subst v. destruct (Hv eq_refl eq_refl) as [Nl Nr].
+        cbn in B1. rewrite andb_true_r in B1. subst fl1.
+        split; [apply Bl; [exact Nl | discriminate] | apply Br; [exact Nr | discriminate]]. }
+      destruct (fr && (hp && is_none v)) eqn:B2.
+      * (* collapsed by the removal of the right child *)
+        apply andb_true_iff in B2. destruct B2 as [-> B2]. apply andb_true_iff in B2. destruct B2 as [-> B2].
+        destruct v; [discriminate|]. destruct (Hv eq_refl eq_refl) as [Nl Nr].
+        cbn in B1. rewrite andb_true_r in B1. subst fl1.
+        inversion H; subst.
+        split; [apply canon_gen_true; exact Al | intros _ _; apply Bl; [exact Nl | discriminate]].
+      * destruct v as [x|].
+        -- destruct (f (length (snd s2)) p x) as [[|]|].
+           ++ inversion H; subst. split; [|intros _ _; reflexivity]. split; [discriminate | split; assumption].
+           ++ destruct (remove_self hp i p (Some x) l' r' (fst s2)) as [[t1 fl2] a2] eqn:RS.
+              inversion H; subst.
+              destruct (remove_self_canon _ _ _ _ _ _ _ _ _ _ RS Al Ar) as [A B]. split; [exact A|].
+              intros _ Hst. apply B. destruct fl2; [exfalso; apply Hst; reflexivity | reflexivity].
+           ++ (* the closure panics at this (valued) node *)
+              inversion H; subst. split; [|intros _ _; reflexivity]. split; [discriminate | split; assumption].
+        -- inversion H; subst. split; [|intros _ _; reflexivity].
+           split; [|split; assumption]. intros -> _.
+           destruct (Hv eq_refl eq_refl) as [Nl Nr].
+           cbn in B1, B2. rewrite andb_true_r in B1, B2. subst fl1 fr.
+           split; [apply Bl | apply Br]; solve [assumption | discriminate].
+Qed.
+
+Lemma ret_canon_gen f t : forall hp s t' fl s',
+  ret f hp t s = (t', RDone fl, s') ->
+  canon_gen hp t ->
+  canon_gen hp t' /\ (is_node t = true -> fl = false -> is_node t' = true).
+Proof.
+  intros hp s t' fl s' H Hc. destruct (ret_canon_gen_any f t hp s t' _ s' H Hc) as [A B].
+  split; [exact A|]. intros Hn ->. apply B; [exact Hn | discriminate].
+Qed.
+
+(** MAIN THEOREMS 2c *)
+Theorem ret_canon_below f t s t' fl s' :
+  ret f true t s = (t', RDone fl, s') -> canon_below t ->
+  canon_below t' /\ (is_node t = true -> fl = false -> is_node t' = true).
+Proof.
+  intros H Hc. apply canon_gen_true in Hc. destruct (ret_canon_gen f t true s t' fl s' H Hc) as [A B].
+  split; [apply canon_gen_true; exact A | exact B].
+Qed.
+
+Theorem ret_canonical f t s t' fl s' :
+  ret f false t s = (t', RDone fl, s') -> canonical t -> canonical t'.
+Proof.
+  intros H Hc. apply canon_gen_false in Hc. destruct (ret_canon_gen f t false s t' fl s' H Hc) as [A _].
+  apply canon_gen_false. exact A.
+Qed.
+
+(** the same for any outcome (a panic of the closure included) *)
+Theorem ret_canon_below_any f t s t' st s' :
+  ret f true t s = (t', st, s') -> canon_below t ->
+  canon_below t' /\ (is_node t = true -> st <> RDone true -> is_node t' = true).
+Proof.
+  intros H Hc. apply canon_gen_true in Hc. destruct (ret_canon_gen_any f t true s t' st s' H Hc) as [A B].
+  split; [apply canon_gen_true; exact A | exact B].
+Qed.
+
+Theorem ret_canonical_any f t s t' st s' :
+  ret f false t s = (t', st, s') -> canonical t -> canonical t'.
+Proof.
+  intros H Hc. apply canon_gen_false in Hc. destruct (ret_canon_gen_any f t false s t' st s' H Hc) as [A _].
+  apply canon_gen_false. exact A.
+Qed.
+
+(* ---------------------------------------------------------------------------------------- *)
+(** * Map level *)
+
+Theorem empty_canonical : canonical (root empty).
+Proof. cbn. split; exact I. Qed.
+
+Theorem clear_canonical (m : pmap) : canonical (root (clear m)).
+Proof. exact empty_canonical. Qed.
+
+Theorem insert_canonical (m : pmap) q x : canonical (root m) -> canonical (root (fst (insert m q x))).
+Proof.
+  intros Hc. unfold Trie.insert. destruct (ins (root m) q x (al m)) as [[t' o] a'] eqn:I. cbn [fst root].
+  eapply ins_canonical; eassumption.
+Qed.
+
+Theorem vacant_insert_canonical (m : pmap) q x : canonical (root m) -> canonical (root (vacant_insert m q x)).
+Proof.
+  intros Hc. unfold Trie.vacant_insert. destruct (vins (root m) q x (al m)) as [t' a'] eqn:I. cbn [root].
+  eapply vins_canonical; eassumption.
+Qed.
+
+Theorem remove_canonical (m : pmap) q : canonical (root m) -> canonical (root (fst (remove m q))).
+Proof.
+  intros Hc. unfold Trie.remove. destruct (rem false (root m) q (al m)) as [[[t' fl] o] a'] eqn:R. cbn [fst root].
+  eapply rem_canonical; eassumption.
+Qed.
+
+(** [retain], when the closure does not panic *)
+Theorem retain_canonical f (m : pmap) :
+  snd (fst (retain f m)) = false -> canonical (root m) -> canonical (root (fst (fst (retain f m)))).
+Proof.
+  unfold Trie.retain. destruct (ret f false (root m) (al m, [])) as [[t' st] [a' lg]] eqn:R. cbn [fst snd root].
+  intros Hp Hc. destruct st as [fl|]; [|discriminate]. eapply ret_canonical; eassumption.
+Qed.
+
+(** ... and even when it does *)
+Theorem retain_canonical_any f (m : pmap) :
+  canonical (root m) -> canonical (root (fst (fst (retain f m)))).
+Proof.
+  unfold Trie.retain. destruct (ret f false (root m) (al m, [])) as [[t' st] [a' lg]] eqn:R. cbn [fst snd root].
+  intros Hc. eapply ret_canonical_any; eassumption.
+Qed.
+
+Lemma fold_insert_canonical (l : list (pfx * V)) : forall m : pmap,
+  canonical (root m) ->
+  canonical (root (fold_left (fun m e => fst (insert m (fst e) (snd e))) l m)).
+Proof.
+  induction l as [|a l IH]; intros m Hc; [exact Hc|]. cbn [fold_left]. apply IH. apply insert_canonical. exact Hc.
+Qed.
+
+Theorem from_list_canonical (l : list (pfx * V)) : canonical (root (from_list l)).
+Proof. unfold Trie.from_list. apply fold_insert_canonical. exact empty_canonical. Qed.
+
+(* ---------------------------------------------------------------------------------------- *)
+(** * Corollaries *)
+
+(** two maps built by [from_list] that store the same key set have the same shape, whatever the
+    order (and multiplicity) of the insertions.  The two [wf_root] hypotheses are the first
+    conjunct of [Mutate.from_list_spec] (which needs [forall e, In e l -> ok (fst e)]). *)
+Theorem insert_order_irrelevant (l1 l2 : list (pfx * V)) :
+  wf_root (root (from_list l1)) -> wf_root (root (from_list l2)) ->
+  (forall k, (exists e, In e (entries (root (from_list l1))) /\ key e = k) <->
+             (exists e, In e (entries (root (from_list l2))) /\ key e = k)) ->
+  shape_of (root (from_list l1)) = shape_of (root (from_list l2)).
+Proof.
+  intros W1 W2 HK. apply canonical_unique; try assumption; apply from_list_canonical.
+Qed.
+
+(** [remove] exactly reverts the [insert] of a key that was not stored.  The hypothesis
+    [Hins] is the second conclusion of [Mutate.insert_spec] (for [m], [q], [x]); [Hrem_wf] and
+    [Hrem] are the first and second conclusions of [Mutate.remove_spec] (for [m1], [q]); both
+    need [ok q], and [remove_spec] needs [wf_root (root m1)], the first conclusion of
+    [insert_spec]. *)
+Theorem remove_reverts_insert (m : pmap) q x :
+  let m1 := fst (insert m q x) in
+  let m2 := fst (remove m1 q) in
+  wf_root (root m) -> canonical (root m) ->
+  (~ exists e, In e (entries (root m)) /\ key e = bits q) ->
+  forall (Hins : forall e, In e (entries (root m1)) <->
+                           e = (q, x) \/ (In e (entries (root m)) /\ key e <> bits q))
+         (Hrem_wf : wf_root (root m2))
+         (Hrem : forall e, In e (entries (root m2)) <-> In e (entries (root m1)) /\ key e <> bits q),
+  shape_of (root m2) = shape_of (root m).
+Proof.
+  intros m1 m2 Wm Cm Hfresh Hins Hrem_wf Hrem.
+  apply canonical_unique; try assumption.
+  - subst m2. apply remove_canonical. subst m1. apply insert_canonical. exact Cm.
+  - intros k. split.
+    + intros [e [He Hk]]. apply Hrem in He. destruct He as [He Hne]. apply Hins in He.
+      destruct He as [->|[He _]]; [exfalso; apply Hne; reflexivity|]. exists e. split; assumption.
+    + intros [e [He Hk]]. exists e. split; [|exact Hk].
+      assert (Hne : key e <> bits q).
+      { intros E. apply Hfresh. exists e. split; assumption. }
+      apply Hrem. split; [|exact Hne]. apply Hins. right. split; assumption.
+Qed.
+
 End CN.
+
+Print Assumptions canon_unique.
+Print Assumptions canonical_unique.
+Print Assumptions ins_canon_below.
+Print Assumptions ins_canonical.
+Print Assumptions vins_canon_below.
+Print Assumptions vins_canonical.
+Print Assumptions rem_canon_below.
+Print Assumptions rem_canonical.
+Print Assumptions ret_canon_below.
+Print Assumptions ret_canonical.
+Print Assumptions ret_canon_below_any.
+Print Assumptions ret_canonical_any.
+Print Assumptions empty_canonical.
+Print Assumptions clear_canonical.
+Print Assumptions insert_canonical.
+Print Assumptions vacant_insert_canonical.
+Print Assumptions remove_canonical.
+Print Assumptions retain_canonical.
+Print Assumptions retain_canonical_any.
+Print Assumptions from_list_canonical.
+Print Assumptions insert_order_irrelevant.
+Print Assumptions remove_reverts_insert.
